@@ -53,6 +53,7 @@ type WorkerOutcome struct {
 // env may add environment entries; timeout kills the process group.
 func (c *Ctx) SpawnWorker(args []string, env []string, timeout time.Duration, prlimitAS uint64) WorkerOutcome {
 	full := append([]string{"worker", c.ID, c.Tier}, args...)
+	env = append(env, fmt.Sprintf("VERIF_DEADLINE_UNIX=%d", c.Deadline.Unix()))
 	cmd := exec.Command(os.Args[0], full...)
 	cmd.Env = append(os.Environ(), env...)
 	cmd.SysProcAttr = &syscall.SysProcAttr{Setpgid: true}
